@@ -115,6 +115,16 @@ CHECKS["C14"] = dict(
         "size; public functions of `concurrent` modules have serial siblings with identical signatures. Index-disjointness at the raw-pointer "
         "sites and bit-identity of results are not decided.",
    design_ref="DESIGN.md §3 C14")
+CHECKS["C10"] = dict(
+   technique="static analysis: must-guard dominance (E2) on the root recomputation + path-sensitive interval/taint abstract interpretation of MIR with relational and for-all-element facts (E4) + dataflow rule on into_paths' result",
+   text="Decides the structural half of the negative direction. (G) every successful BatchMerkleProof::get_root / MerkleTree::verify_batch / "
+        "MerkleTree::verify passes the shape decisions with the canonical comparison (empty / too many positions, depth bound, every position "
+        "< 2^depth, duplicates, node-vector count, single root, recomputed root == root handed in). (E4) with all fields of the opening, the "
+        "position list and single paths attacker-controlled, no overflow / bounds / unwrap / explicit panic site in get_root, into_paths, verify, "
+        "verify_batch, deserialize remains unproven when its operands were compared at all; loop-counter indexes whose bound is an inductive "
+        "invariant are listed as undecided. (O) into_paths answers in the caller's position order. NOT decided: that honest openings verify, "
+        "from_paths/into_paths round trips, and that a changed leaf or node changes the root (collision resistance of the hash).",
+   design_ref="DESIGN.md §3 C10")
 CHECKS["C06"] = dict(
    technique="static analysis: inter-procedural, path-sensitive abstract interpretation of MIR (intervals + power-of-two + lengths + variant sets + relational facts on tagged values) with taint from the byte readers",
    text="Static proof that in Proof::from_bytes and everything it reaches, in Proof::security_level and in VerifierChannel::new with all sub-parsers "
